@@ -11,7 +11,6 @@ open SigModel.Tlv SigModel.Cmp SigModel.Lemmas.C01
 /-- what the theorems assume about the float64 rounding `rnd` (see the model header) -/
 structure RndOk (rnd : Rat → Rat) : Prop where
   zero : rnd 0 = 0
-  tol_pos : 0 < rnd tolerance
   idem : ∀ x, rnd (rnd x) = rnd x
   fix64 : ∀ b, finiteBits b = true → rnd (f64val b) = f64val b
 
@@ -21,31 +20,6 @@ theorem natCast_rat (n : Nat) : ((n : Int) : Rat) = (n : Rat) := by norm_cast
 
 theorem cmpQ_int (op : Op) (a b : Int) : cmpQ op (a : Rat) (b : Rat) = cmpZ op a b := by
   cases op <;> simp [cmpQ, cmpZ, Rat.intCast_lt_intCast, Rat.intCast_le_intCast, Rat.intCast_inj]
-
-/-- the `=`/`!=` part of the guard: the operands are equal or at least the tolerance apart -/
-def tolOk (rnd : Rat → Rat) (op : Op) (a b : Rat) : Bool :=
-  match op with
-  | .eq | .ne => decide (a = b) || decide (rnd tolerance ≤ absR (rnd (a - b)))
-  | _ => true
-
-theorem almostEq_of_tolOk (rnd : Rat → Rat) (hr : RndOk rnd) (a b : Rat)
-    (h : decide (a = b) || decide (rnd tolerance ≤ absR (rnd (a - b))) = true) :
-    almostEq rnd a b = decide (a = b) := by
-  unfold almostEq
-  by_cases hab : a = b
-  · subst hab
-    have h0 : a - a = 0 := by grind
-    have ht := hr.tol_pos
-    simp [h0, hr.zero, absR]
-    exact ht
-  · simp [hab] at h ⊢
-    grind
-
-theorem cmpFloat_eq_cmpQ (rnd : Rat → Rat) (hr : RndOk rnd) (op : Op) (a b : Rat)
-    (h : tolOk rnd op a b = true) : cmpFloat rnd op a b = cmpQ op a b := by
-  cases op <;> simp [cmpFloat, cmpQ] <;> simp [tolOk] at h
-  · exact almostEq_of_tolOk rnd hr a b (by simpa using h)
-  · rw [almostEq_of_tolOk rnd hr a b (by simpa using h)]
 
 /-! ### records of the writer's kinds -/
 
